@@ -188,6 +188,97 @@ static void run_loop(FILE *o, const char *proto, int nmsgs, unsigned seed, bool 
     xcm_close(srv);
 }
 
+/* ---- full duplex: both ends send and receive, each awaiting RECEIVABLE (unless it pauses reading) plus SENDABLE while it
+   has something to send; one XCM call per wake-up.  Pauses build back-pressure in both directions at once, so an end is
+   regularly blocked on output while input arrives - the case where one awaited condition must not displace the other. */
+struct dend { struct xcm_socket *s; int last; int sent, got, bad; size_t soff, goff_total; double pause_until; bool done_rx; };
+
+static void duplex_io(struct dend *e, bool bs, int nmsgs, bool can_read, bool *progress, bool *failed, int *err_no, const char **err_at)
+{
+    static char sbuf[70000], rbuf[70000], exp[70000];
+    /* alternate: prefer the receive when allowed, else the send */
+    if (can_read && !e->done_rx) {
+	int r = xcm_receive(e->s, rbuf, sizeof(rbuf));
+	if (r > 0) {
+	    *progress = true;
+	    if (bs) {
+		for (int k = 0; k < r; k++) {
+		    size_t pos = e->goff_total + k, i = 0, off = 0;
+		    while (i < (size_t)nmsgs && off + msg_len(i, true) <= pos) { off += msg_len(i, true); i++; }
+		    char c = i < (size_t)nmsgs ? (char)('A' + (i * 7 + (pos - off)) % 23) : '?';
+		    if (rbuf[k] != c) { e->bad++; break; }
+		}
+		e->goff_total += r;
+		size_t tot = 0; for (int i = 0; i < nmsgs; i++) tot += msg_len(i, true);
+		if (e->goff_total >= tot) { e->got = nmsgs; e->done_rx = true; }
+	    } else {
+		size_t l = msg_len(e->got, false);
+		msg_fill(exp, e->got, l);
+		if ((size_t)r != l || memcmp(exp, rbuf, l)) e->bad++;
+		if (++e->got == nmsgs) e->done_rx = true;
+	    }
+	    return;
+	}
+	if (r == 0) { *failed = true; *err_no = EPIPE; *err_at = "early-close"; return; }
+	if (errno != EAGAIN) { *failed = true; *err_no = errno; *err_at = "receive"; return; }
+    }
+    if (e->sent < nmsgs) {
+	size_t l = msg_len(e->sent, bs);
+	msg_fill(sbuf, e->sent, l);
+	int r = bs ? xcm_send(e->s, sbuf + e->soff, l - e->soff) : xcm_send(e->s, sbuf, l);
+	if (r >= 0) { *progress = true; if (bs) { e->soff += r; if (e->soff == l) { e->soff = 0; e->sent++; } } else e->sent++; }
+	else if (errno != EAGAIN) { *failed = true; *err_no = errno; *err_at = "send"; }
+    } else {
+	int r = xcm_finish(e->s);
+	if (r == 0) *progress = true;
+	else if (errno != EAGAIN) { *failed = true; *err_no = errno; *err_at = "finish"; }
+    }
+}
+
+static void run_duplex(FILE *o, const char *proto, int nmsgs, unsigned seed)
+{
+    bool bs = sys_is_bytestream(proto);
+    struct trio t;
+    int saved = inject; inject = 0;
+    int erc = sys_establish(proto, &t, NULL, NULL);
+    inject = saved;
+    if (erc < 0) { fprintf(o, "fail establish %s\n", h_errname(errno)); sys_close_trio(&t); return; }
+    struct dend e[2] = { { .s = t.client, .last = -1 }, { .s = t.accepted, .last = -1 } };
+    bool stall = false, failed = false; int err_no = 0; const char *err_at = "";
+    int idle = 0, iter = 0, spins = 0;
+    double t0 = now();
+    while (!failed) {
+	iter++;
+	bool all = true;
+	for (int i = 0; i < 2; i++) if (!(e[i].sent == nmsgs && e[i].done_rx)) all = false;
+	if (all) {
+	    int f0 = xcm_finish(e[0].s), f1 = xcm_finish(e[1].s);
+	    if (f0 == 0 && f1 == 0) break;
+	}
+	struct pollfd p[2];
+	bool can_read[2];
+	for (int i = 0; i < 2; i++) {
+	    if (e[i].pause_until < now() && rand_r(&seed) % 40 == 0) e[i].pause_until = now() + 0.02 + (rand_r(&seed) % 60) / 1000.0;
+	    can_read[i] = now() >= e[i].pause_until;
+	    int cond = (can_read[i] && !e[i].done_rx ? XCM_SO_RECEIVABLE : 0) | (e[i].sent < nmsgs ? XCM_SO_SENDABLE : 0);
+	    await_if_changed(e[i].s, &e[i].last, cond);
+	    p[i].fd = xcm_fd(e[i].s); p[i].events = POLLIN;
+	}
+	int rc = poll(p, 2, 10);
+	if (rc == 0) { if (++idle > 400) { stall = true; break; } continue; }
+	idle = 0;
+	bool progress = false;
+	for (int i = 0; i < 2 && !failed; i++)
+	    if (p[i].revents & POLLIN) duplex_io(&e[i], bs, nmsgs, can_read[i], &progress, &failed, &err_no, &err_at);
+	if (!progress) spins++;
+	if (now() - t0 > 60) { stall = true; break; }
+    }
+    fprintf(o, "duplex sent=%d,%d got=%d,%d bad=%d complete=%d stall=%d failed=%s%s iter=%d spins=%d eagain=%ld short=%ld t=%.2f\n",
+	    e[0].sent, e[1].sent, e[0].got, e[1].got, e[0].bad + e[1].bad, e[0].sent == nmsgs && e[1].sent == nmsgs && e[0].done_rx && e[1].done_rx,
+	    stall, failed ? h_errname(err_no) : "-", failed ? err_at : "", iter, spins, n_eagain, n_short, now() - t0);
+    sys_close_trio(&t);
+}
+
 /* ---- blocking forms ------------------------------------------------------------------------- */
 struct bctx { const char *proto; char addr[300]; int nmsgs; int got, bad; bool close_seen; int err; const char *at; struct xcm_socket *srv; };
 
@@ -281,6 +372,7 @@ int main(void)
 	n_eagain = n_short = 0;
 	if (!strcmp(w[0], "LOOP") && n == 5) { inject = atoi(w[3]); fseed = atoi(w[4]) * 2654435761u + 1; run_loop(o, w[1], atoi(w[2]), atoi(w[4]), false); inject = 0; }
 	else if (!strcmp(w[0], "SPEC") && n == 5) { inject = atoi(w[3]); fseed = atoi(w[4]) * 2654435761u + 1; run_loop(o, w[1], atoi(w[2]), atoi(w[4]), true); inject = 0; }
+	else if (!strcmp(w[0], "DUPLEX") && n == 5) { inject = atoi(w[3]); fseed = atoi(w[4]) * 2654435761u + 1; run_duplex(o, w[1], atoi(w[2]), atoi(w[4])); inject = 0; }
 	else if (!strcmp(w[0], "BLOCK") && n == 5) { inject = atoi(w[3]); fseed = atoi(w[4]) * 2654435761u + 1; run_block(o, w[1], atoi(w[2])); inject = 0; }
 	else fputs("bad-op\n", o);
 	fflush(o);
